@@ -139,6 +139,19 @@ def install(w):
     M['<WyHash as Hasher>::finish'] = finish
     M['<FxHasher as Hasher>::finish'] = finish
 
+    def hash_one(ex, c, a):
+        # BuildHasherDefault<H>::hash_one(x): H::default(), x.hash(&mut h), h.finish()
+        inner = generic_arg(c.selfty) or ''
+        kind = 'wyhash' if 'WyHash' in inner else ('fx' if 'Fx' in inner else 'sip')
+        h = HasherModel(kind, Int('u64', 0))
+        feed(ex, h, a[1])
+        return finish(ex, c, [h])
+    M['<BuildHasherDefault as BuildHasher>::hash_one'] = hash_one
+    M['<_ as BuildHasher>::hash_one'] = hash_one
+    M['<BuildHasherDefault as Default>::default'] = lambda ex, c, a: Opaque('BuildHasherDefault')
+    M['BuildHasherDefault::default'] = lambda ex, c, a: Opaque('BuildHasherDefault')
+    M['default:BuildHasherDefault'] = lambda ex, ty: Opaque('BuildHasherDefault')
+
     # ------------------------------------------------------------------ randomness
     M['tls_rng'] = lambda ex, c, a: Opaque('TlsWyRand')
     M['nanorand::tls_rng'] = M['tls_rng']
